@@ -364,6 +364,14 @@ class World:
                 raise HarnessHang(f"pipe {pipe.id}: {pipe.eof_reads} consecutive reads at EOF - the caller spins on a closed connection")
             return b""
         # nothing pending and the peer has not closed: a real read would block
+        hook = getattr(pipe, "before_block", None)
+        if hook is not None and hook():
+            self.trace.pop()  # re-issue the same read now that the peer has spoken
+            self.kind_count[(op["pipe"], "read")] -= 1
+            self.kind_count[("*", "read")] -= 1
+            self.kind_count["elig"] -= 1
+            self.seq -= 1
+            return self.do_read(stream, max_bytes, timeout, seg)
         if timeout is not None:
             self.clock.advance(timeout)
             op["blocked"] = True
